@@ -6,6 +6,7 @@ package main
 
 import (
 	"fmt"
+	"go/constant"
 	"os"
 	"go/token"
 	"go/types"
@@ -196,6 +197,11 @@ func (pm *pinModel) analyse(fn *ssa.Function) *pinResult {
 				return opUnlock, p // closure summary: translated by the caller
 			}
 			if r, ok := resOf(st, p); ok {
+				if strings.HasSuffix(st.held[r], "D") {
+					if cv, isConst := constOf(args[len(args)-1]); isConst && !constant.BoolVal(cv) {
+						addIssue("modified-page-unpinned-clean", c, "page pinned as "+r+" was written under this pin and is unpinned with isDirty=false: the change is lost if the frame is evicted before the page is dirtied again")
+					}
+				}
 				return opUnlock, r
 			}
 			return opUnlock, st.root(p)
@@ -250,6 +256,28 @@ func (pm *pinModel) analyse(fn *ssa.Function) *pinResult {
 	}
 	// pointer nil-checks: on the edge on which a pinned pointer is nil nothing is pinned
 	lw.OnEdge = func(b *ssa.BasicBlock, succ int, st *LState) bool {
+		// "written under this pin" is tracked only while the page stays in one variable: once the pointer
+		// flows through a phi (next loop iteration, `currentPage = newPage`) the mark is dropped — the paths
+		// that would combine a write of one iteration with a clean unpin of a later one are value-infeasible
+		// here (a freshly initialised page has no next page) and cannot be excluded statically.
+		sb := b.Succs[succ]
+		pi := -1
+		for k, p := range sb.Preds {
+			if p == b {
+				pi = k
+			}
+		}
+		for _, in := range sb.Instrs {
+			phi, ok := in.(*ssa.Phi)
+			if !ok {
+				break
+			}
+			if pi >= 0 && pi < len(phi.Edges) {
+				if r, held := resOf(st, pm.path(phi.Edges[pi])); held && strings.HasSuffix(st.held[r], "D") {
+					st.held[r] = strings.TrimSuffix(st.held[r], "D")
+				}
+			}
+		}
 		i := blockIf(b)
 		if i == nil {
 			return true
@@ -296,19 +324,27 @@ func (pm *pinModel) analyse(fn *ssa.Function) *pinResult {
 		condTrueMeansNil := (bo.Op == token.EQL) != neg
 		edgeIsNil := (succ == 0) == condTrueMeansNil
 		if edgeIsNil {
-			if st.held[r] == "C" {
+			if strings.HasPrefix(st.held[r], "C") {
 				return false // already proved non-nil by an earlier check on this path
 			}
 			delete(st.held, r)
-		} else {
-			st.held[r] = "C"
+		} else if !strings.HasPrefix(st.held[r], "C") {
+			st.held[r] = "C" + strings.TrimPrefix(st.held[r], "W")
 		}
 		return true
 	}
 	// escapes: a pinned pointer stored into a non-local location
+	mustWrite := a.pageWriteSumm()
 	lw.OnInstr = func(in ssa.Instruction, st *LState) {
 		if dbgHook != nil {
 			dbgHook(in, st)
+		}
+		if c, ok := in.(*ssa.Call); ok && len(c.Call.Args) > 0 && !c.Call.IsInvoke() {
+			if o := CalleeObj(c); o != nil && o != a.PageSetLSN && mustWrite.MustSite(in) {
+				if r, held := resOf(st, pm.path(c.Call.Args[0])); held && !strings.HasSuffix(st.held[r], "D") {
+					st.held[r] += "D"
+				}
+			}
 		}
 		stI, ok := in.(*ssa.Store)
 		if !ok {
@@ -368,6 +404,9 @@ func init() {
 	reg("C14-R1", "pin pairing: in the heap, executor, materialization, catalog, samehada, recovery, hash-index and index-wrapper packages every FetchPage/NewPage (and derived wrapper) is released by UnpinPage/DecPinOfPage on every non-panicking path, or leaves the function through a declared transfer", func(w *World, r *Report) {
 		pinRule(w, r, nil, 15, 25)
 	})
+	reg("C13-R8", "a page written under a pin is unpinned dirty: when a call that certainly writes page bytes (SetNextPageID, Init, ApplyDelete, …) was made through a pinned page, the matching UnpinPage does not pass the constant isDirty=false (tracked while the page stays in one variable)", func(w *World, r *Report) {
+		pinRule(w, r, nil, 15, 25, "modified-page-unpinned-clean")
+	})
 	reg("C14-R1/recovery", "pin pairing on the restart path (a pin leaked by recovery exhausts a small pool and restart fails): the functions of recovery/log_recovery, the catalog reload and the samehada start-up / index reconstruction functions", func(w *World, r *Report) {
 		pinRule(w, r, func(fn *ssa.Function) bool {
 			p := fn.Pkg.Pkg.Path()
@@ -390,7 +429,7 @@ func init() {
 	})
 }
 
-func pinRule(w *World, r *Report, filter func(fn *ssa.Function) bool, floorFns, floorAcq int) {
+func pinRule(w *World, r *Report, filter func(fn *ssa.Function) bool, floorFns, floorAcq int, onlyKinds ...string) {
 	{
 		pm := newPinModel(w)
 		inScope := func(fn *ssa.Function) bool {
@@ -495,7 +534,28 @@ func pinRule(w *World, r *Report, filter func(fn *ssa.Function) bool, floorFns, 
 			}
 			byKind := map[string][]string{}
 			for _, is := range res.issues {
-				byKind[is.kind] = append(byKind[is.kind], w.InstrPos(is.in)+": "+is.detail)
+				want := is.kind != "modified-page-unpinned-clean" // reported by C13-R8
+				if len(onlyKinds) > 0 {
+					want = false
+					for _, k := range onlyKinds {
+						if k == is.kind {
+							want = true
+						}
+					}
+				}
+				if want {
+					byKind[is.kind] = append(byKind[is.kind], w.InstrPos(is.in)+": "+is.detail)
+				}
+			}
+			if len(byKind) == 0 {
+				if len(onlyKinds) > 0 {
+					r.Ok(k+":"+onlyKinds[0], "no such issue in this function")
+				} else if res.acquires > 0 {
+					r.Ok(k+":pins-released", fmt.Sprintf("all %d pin sites are released on every path", res.acquires))
+				} else {
+					r.OkTrivial(k+":pins-released", "only releases pins it was handed")
+				}
+				continue
 			}
 			var kinds []string
 			for kd := range byKind {
